@@ -425,6 +425,7 @@ static int apply(struct dthread *t) {
                 r = ESRCH;
             } else if (t->obj == t->ord) {
                 r = EDEADLK;
+                G.misuse++;
             } else if (G.th[t->obj]->detached || G.th[t->obj]->joined) {
                 r = EINVAL;
                 G.misuse++;
@@ -988,7 +989,12 @@ void ds_describe_blocked(char *buf, size_t n) {
         }
         char ot = (t->kind == DS_JOIN) ? 't' : (t->kind == DS_WAKE) ? 'c' : (t->kind == DS_ONCE) ? 'o' : 'm';
         int ob = (t->kind == DS_WAKE) ? t->obj2 : t->obj;
-        int w = snprintf(buf + off, n - off, "%st%d:%s %c%d", off ? " " : "", t->ord, ds_kind_name(t->kind), ot, ob);
+        int w;
+        if (t->kind == DS_JOIN || t->kind == DS_WAKE || t->kind == DS_ONCE || t->kind == DS_LOCK) {
+            w = snprintf(buf + off, n - off, "%st%d:%s %c%d", off ? " " : "", t->ord, ds_kind_name(t->kind), ot, ob);
+        } else {
+            w = snprintf(buf + off, n - off, "%st%d:%s", off ? " " : "", t->ord, ds_kind_name(t->kind));
+        }
         if (w < 0) {
             break;
         }
